@@ -206,7 +206,13 @@ async fn handle(
         } => handle_stream_append(&mut store, req, topic, ttl, context_id).await,
 
         Routes::CasGet(hash) => {
-            let reader = store.cas_reader(hash).await?;
+            let reader = match store.cas_reader(hash).await {
+                Ok(reader) => reader,
+                Err(cacache::Error::IoError(e, _)) if e.kind() == std::io::ErrorKind::NotFound => {
+                    return response_404();
+                }
+                Err(e) => return response_500(e.to_string()),
+            };
             let stream = ReaderStream::new(reader);
 
             let stream = stream.map(|frame| {
